@@ -117,6 +117,8 @@ def run(chk):
                          {"line": line, "polygon": pg, "point": list(p)}))
     cs = CaseSet("c19")
     plan = []
+    fnum_bad = []
+    kd_nodes = {}
     li = 0
     for pts, qs in sets:
         for q in qs:
@@ -148,6 +150,7 @@ def run(chk):
                        "List.concat_map (fun (i, d) -> [string_of_int (int_of_nat i); hx d]) vs)))" % (mln, mpt(q)),
                        {"kind": "kd", "points": pts, "query": q})
             plan.append(("kd", i, "ok " + tail.strip()))
+            kd_nodes[i] = (nodes, q)
     # ---------------- Bezier -----------------------------------------------------------------------
     for _ in range(40 if quick else 600):
         rng.seed("%d/c19-3/%d" % (chk.seed, _))      # every world has its own stream: families do not disturb each other
@@ -302,6 +305,31 @@ def run(chk):
     impl, model = cs.run()
     chk.evaluations += len(impl)
     bad = chk.correspond(impl, model, cs, max_ulp=0)
+    # in-Coq cross-evaluation (coq/NumF.v): the polygon scan and the kd search, evaluated by Coq's VM on primitive floats, give what
+    # the extracted OCaml model gives on the same inputs
+    import fnum
+    nsample = 250 if quick else 3000
+    step = max(1, len(pl_meta) // nsample)
+    psel = pl_meta[::step][:nsample]
+    pbody = "".join("\nlet () = out_str (if polygon_contains_impl n %s %s then \"ok 1\" else \"ok 0\")\n" % (mlist([mpt(c) for c in pg]), mpt(p)) for pg, p in psel)
+    pans = common.run_model(pbody, tag="c19fn") if psel else []
+    pcases = [(pg, p, a.split()[-1] == "1") for (pg, p), a in zip(psel, pans)]
+    kcases = []
+    for i, (nodes, q) in list(kd_nodes.items())[:(60 if quick else 600)]:
+        t = model[i].split()
+        if len(t) >= 3 and t[0] == "ok":
+            kcases.append((nodes, q, int(t[1]), common.unhex(t[2]), [(int(t[k]), common.unhex(t[k + 1])) for k in range(3, len(t) - 1, 2)]))
+    nfn, fbad = fnum.crosscheck(pcases, kcases, tag="c19")
+    chk.counters["kernel cases evaluated inside Coq on primitive floats (polygon scan, kd search)"] = nfn
+    chk.counters["of those differing from the extracted model"] = len(fbad)
+    chk.corr["cases"] += nfn
+    chk.corr["agree"] += nfn - len(fbad)
+    chk.corr["bit_exact"] += nfn - len(fbad)
+    chk.corr["disagreements"] += len(fbad)
+    for k in fbad[:2]:
+        what = ({"kind": "polygon", "polygon": pcases[k][0], "point": list(pcases[k][1]), "extracted_model": pcases[k][2]} if k < len(pcases)
+                else {"kind": "kd", "nodes": kcases[k - len(pcases)][0], "query": list(kcases[k - len(pcases)][1])})
+        fnum_bad.append(what)
     ctrl_of = {}
     for pl in plan:
         kind, i = pl[0], pl[1]
@@ -385,4 +413,8 @@ def run(chk):
             dsc = cs.describe(i)
             dsc["impl"], dsc["model"] = impl[i], model[i]
             chk.violation("correspondence Kernels.v/Bezier.v <-> implementation broken", dsc, found_input=False)
+    if fnum_bad and not viol:
+        for w_ in fnum_bad:
+            chk.violation("the kernel evaluated inside Coq (primitive floats, NumF.v) differs from the extracted model: extraction or "
+                          "the OCaml float dictionary no longer agree with the Gallina definition", w_, found_input=False)
     cs.cleanup()
